@@ -18,6 +18,7 @@ CONSTANTS
   Cat,       \* names of the bundles of this scenario family
   Attr,      \* [Cat -> [origin, dst, prev, life, clockless, tsg, req, admin, rptlocal, hop, hasunk, unkf, copies]]
   Algo,      \* "epidemic" | "spray" | "binary_spray" | "prophet" | "dtlsr" | "mule" (sensor-mule wrapper around epidemic)
+             \* | "mule_spray" (sensor-mule wrapper around spray-and-wait)
   Sensors,   \* mule: peers that are sensor nodes (only ever served by direct delivery)
   Budget,    \* spray-and-wait multiplicity L
   Enabled,   \* subset of action names this family explores
@@ -93,11 +94,15 @@ Delete(w, b, reason) == Forget(ReportIf(w, b, "del", "deleted", reason), b)
 SetPending(w, b) == [w EXCEPT !.st[b].pending = TRUE]
 
 (* ---- routing algorithms ---- *)
+(* the sensor-mule wrapper hands every question to the algorithm it wraps and then strikes the sensor nodes from the answer, telling
+   the wrapped algorithm that the transmission to each of them failed (so that a copy set aside for a sensor is taken back) *)
+Inner == IF Algo = "mule_spray" THEN "spray" ELSE Algo
+Eff(tg) == IF Algo = "mule_spray" THEN tg \ Sensors ELSE tg
 Notify(w, b) ==
   LET a == Attr[b] IN
   CASE Algo \in {"epidemic", "prophet", "dtlsr", "mule"} ->
          IF a.prev # "none" THEN [w EXCEPT !.st[b].sent = @ \cup {a.prev}] ELSE w
-    [] Algo = "spray" ->
+    [] Inner = "spray" ->
          [w EXCEPT !.meta[b] = IF a.origin = "app"
                                THEN [has |-> TRUE, copies |-> Budget, sent |-> {}]
                                ELSE [has |-> TRUE, copies |-> 1, sent |-> IF a.prev # "none" THEN {a.prev} ELSE {}]]
@@ -113,7 +118,7 @@ Candidates(w, b) ==
   CASE IsLocal(Attr[b].dst) -> {}        \* delivered here, the algorithm is not asked
     [] Algo = "epidemic" -> w.up \ w.st[b].sent
     [] Algo = "mule" -> (w.up \ w.st[b].sent) \ Sensors     \* sensors are filtered out (and reported back as failed, i.e. forgotten)
-    [] Algo = "spray" -> IF w.meta[b].has /\ w.meta[b].copies >= 2 THEN w.up \ w.meta[b].sent ELSE {}
+    [] Inner = "spray" -> IF w.meta[b].has /\ w.meta[b].copies >= 2 THEN w.up \ w.meta[b].sent ELSE {}
     [] Algo = "binary_spray" -> IF w.meta[b].has /\ w.meta[b].copies >= 2 THEN w.up \ w.meta[b].sent ELSE {}
     [] Algo = "prophet" -> {p \in w.up \ w.st[b].sent :
                               peerv[p][Attr[b].dst] > (IF Attr[b].dst \in w.own THEN 2 ELSE 0)}
@@ -121,23 +126,24 @@ Candidates(w, b) ==
                          ELSE {h \in w.up : <<Attr[b].dst, h>> \in table}
 Min(a, c) == IF a < c THEN a ELSE c
 HowMany(w, b) ==
-  CASE Algo = "spray" -> Min(w.meta[b].copies - 1, Cardinality(Candidates(w, b)))
+  CASE Inner = "spray" -> Min(w.meta[b].copies - 1, Cardinality(Candidates(w, b)))
     [] Algo = "binary_spray" -> Min(1, Cardinality(Candidates(w, b)))
     [] OTHER -> Cardinality(Candidates(w, b))
 Choices(w, b) == {s \in SUBSET Candidates(w, b) : Cardinality(s) = HowMany(w, b)}
+EffChoices(w, b) == {Eff(s) : s \in Choices(w, b)}      \* what can be seen of a choice: the transmissions
 DeleteAfter(b) == Algo = "dtlsr" /\ Attr[b].dst # "bcast"    \* unicast hand-over releases the bundle
 
 (* memory update when the algorithm selected targets tg; announced = copies written into a binary-spray block *)
 Announced(w, b) == IF Algo = "binary_spray" THEN w.meta[b].copies \div 2 ELSE 0
 Selected(w, b, tg) ==
   CASE Algo \in {"epidemic", "prophet", "mule"} -> [w EXCEPT !.st[b].sent = @ \cup tg]
-    [] Algo = "spray" -> [w EXCEPT !.meta[b].sent = @ \cup tg, !.meta[b].copies = @ - Cardinality(tg)]
+    [] Inner = "spray" -> [w EXCEPT !.meta[b].sent = @ \cup tg, !.meta[b].copies = @ - Cardinality(tg)]
     [] Algo = "binary_spray" -> IF tg = {} THEN w
                                 ELSE [w EXCEPT !.meta[b].sent = @ \cup tg, !.meta[b].copies = @ - Announced(w, b)]
     [] Algo = "dtlsr" -> IF Attr[b].dst = "bcast" THEN [w EXCEPT !.st[b].sent = @ \cup tg] ELSE w
 Failed(w, b, p, ann) ==
   CASE Algo \in {"epidemic", "prophet", "dtlsr", "mule"} -> [w EXCEPT !.st[b].sent = @ \ {p}]
-    [] Algo = "spray" -> IF w.meta[b].has THEN [w EXCEPT !.meta[b].sent = @ \ {p}, !.meta[b].copies = @ + 1] ELSE w
+    [] Inner = "spray" -> IF w.meta[b].has THEN [w EXCEPT !.meta[b].sent = @ \ {p}, !.meta[b].copies = @ + 1] ELSE w
     [] Algo = "binary_spray" -> IF w.meta[b].has THEN [w EXCEPT !.meta[b].sent = @ \ {p}, !.meta[b].copies = @ + ann] ELSE w
 
 RECURSIVE FailAll(_, _, _, _)
@@ -152,9 +158,9 @@ Forward(w, b, tg) ==
   ELSE IF Expired(b) THEN Delete(w, b, "expired")
   ELSE LET direct == {p \in w.up : p = Attr[b].dst}
            isDirect == direct # {}
-           targets == IF isDirect THEN direct ELSE tg
+           targets == IF isDirect THEN direct ELSE Eff(tg)
            ann == IF isDirect THEN 0 ELSE Announced(w, b)
-           w1 == IF isDirect THEN w ELSE Selected(w, b, tg)
+           w1 == IF isDirect THEN w ELSE Selected(w, b, Eff(tg))
            okT == targets \ w.failing
            \* a failed direct delivery was not selected by the algorithm, so there is nothing to give back
            w2 == IF isDirect THEN w1 ELSE FailAll(w1, b, targets \cap w.failing, ann)
@@ -191,7 +197,7 @@ Picks(w) == [PendingSet(w) -> SUBSET Peers]
 GoodPick(w, pick) == \A b \in PendingSet(w) : pick[b] \in Choices(w, b)
 
 -----------------------------------------------------------------------------
-MemKept(x, w) == CASE Algo \in {"spray", "binary_spray"} -> w.meta[x].has
+MemKept(x, w) == CASE Inner \in {"spray", "binary_spray"} -> w.meta[x].has
                    [] Algo = "dtlsr" -> Attr[x].dst = "bcast"
                    [] OTHER -> TRUE
 Exp(w) == [stored |-> {b \in Cat : w.st[b].known}, pending |-> {b \in Cat : w.st[b].known /\ w.st[b].pending},
@@ -200,7 +206,7 @@ Exp(w) == [stored |-> {b \in Cat : w.st[b].known}, pending |-> {b \in Cat : w.st
            copies |-> [b \in {x \in Cat : w.meta[x].has} |-> w.meta[b].copies],
            \* the algorithm's memory of who has the bundle already (kept with the stored bundle, spray: in memory); compared with
            \* the real one after every step, so that a wrong mark is seen at once and not only when a later contact is missed
-           mem |-> [b \in {x \in Cat : w.st[x].known /\ MemKept(x, w)} |-> IF Algo \in {"spray", "binary_spray"} THEN w.meta[b].sent ELSE w.st[b].sent]]
+           mem |-> [b \in {x \in Cat : w.st[x].known /\ MemKept(x, w)} |-> IF Inner \in {"spray", "binary_spray"} THEN w.meta[b].sent ELSE w.st[b].sent]]
 
 Commit(w, rec) ==
   /\ st' = w.st /\ meta' = w.meta
@@ -223,7 +229,7 @@ Submit(b, tg) ==
          w1 == Notify(w0, b)
      IN /\ tg \in Choices(w1, b)
         /\ idk' = IF g = 0 THEN idk ELSE [idk EXCEPT ![g] = sq + 1]
-        /\ Commit(Dispatch(w1, b, tg), [act |-> "Submit", b |-> b, tg |-> tg, choices |-> [x \in {b} |-> Choices(w1, b)]])
+        /\ Commit(Dispatch(w1, b, tg), [act |-> "Submit", b |-> b, tg |-> tg, choices |-> [x \in {b} |-> EffChoices(w1, b)]])
   /\ UNCHANGED <<up, failing, own, peerv, nbr, table, via, late, lateReg>>
 
 Receive(b, tg) ==
@@ -238,7 +244,7 @@ Receive(b, tg) ==
              THEN Commit(Delete(w2, b, "unsupported"), [act |-> "Receive", b |-> b, tg |-> {}])
              ELSE LET w3 == Notify(w2, b)
                   IN /\ tg \in Choices(w3, b)
-                     /\ Commit(Dispatch(w3, b, tg), [act |-> "Receive", b |-> b, tg |-> tg, choices |-> [x \in {b} |-> Choices(w3, b)]])
+                     /\ Commit(Dispatch(w3, b, tg), [act |-> "Receive", b |-> b, tg |-> tg, choices |-> [x \in {b} |-> EffChoices(w3, b)]])
   /\ UNCHANGED <<up, failing, own, peerv, nbr, table, via, idk, used, late, lateReg>>
 
 (* a bundle arrives from a peer at the very moment the application submits another one: the two are handled by different
@@ -257,7 +263,7 @@ Race(br, bs, tgr, tgs) ==
      IN /\ tgr \in Choices(r1, br) /\ Cardinality(Choices(r1, br)) = 1
         /\ tgs \in Choices(s1, bs) /\ Cardinality(Choices(s1, bs)) = 1
         /\ UNCHANGED idk
-        /\ Commit(Dispatch(s1, bs, tgs), [act |-> "Race", b |-> br, d |-> bs, choices |-> [x \in {br, bs} |-> IF x = br THEN Choices(r1, br) ELSE Choices(s1, bs)]])
+        /\ Commit(Dispatch(s1, bs, tgs), [act |-> "Race", b |-> br, d |-> bs, choices |-> [x \in {br, bs} |-> IF x = br THEN EffChoices(r1, br) ELSE EffChoices(s1, bs)]])
   /\ UNCHANGED <<up, failing, own, peerv, nbr, table, via, late, lateReg>>
 
 PeerUp(p, pick) ==
@@ -267,7 +273,7 @@ PeerUp(p, pick) ==
   /\ LET w == [World EXCEPT !.up = up \cup {p}, !.own = own \cup {p}] IN
      /\ pick \in Picks(w)
      /\ GoodPick(w, pick)
-     /\ Commit(RetryAll(w, PendingSet(w), pick), [act |-> "PeerUp", p |-> p, pick |-> pick, choices |-> [x \in PendingSet(w) |-> Choices(w, x)]])
+     /\ Commit(RetryAll(w, PendingSet(w), pick), [act |-> "PeerUp", p |-> p, pick |-> pick, choices |-> [x \in PendingSet(w) |-> EffChoices(w, x)]])
   /\ UNCHANGED <<failing, peerv, table, via, idk, used, late, lateReg>>
 
 PeerDown(p) ==
@@ -285,7 +291,7 @@ SetFail(p, v) ==
 RetryTick(pick) ==
   /\ Go("RetryTick")
   /\ pick \in Picks(World) /\ GoodPick(World, pick)
-  /\ Commit(RetryAll(World, PendingSet(World), pick), [act |-> "RetryTick", pick |-> pick, choices |-> [x \in PendingSet(World) |-> Choices(World, x)]])
+  /\ Commit(RetryAll(World, PendingSet(World), pick), [act |-> "RetryTick", pick |-> pick, choices |-> [x \in PendingSet(World) |-> EffChoices(World, x)]])
   /\ UNCHANGED <<up, failing, own, peerv, nbr, table, via, idk, used, late, lateReg>>
 
 CleanTick ==
@@ -357,7 +363,7 @@ NoSilentLoss == \A b \in Cat : st[b].known /\ ~IsLocal(Attr[b].dst) => st[b].pen
 \* C18: spray-and-wait never holds a negative number of copies and never more than its budget / what it received
 CopiesInRange == \A b \in Cat : meta[b].has => meta[b].copies >= 0 /\ meta[b].copies <= (IF Attr[b].copies > 0 THEN Attr[b].copies ELSE Budget)
 \* C18 (vanilla): copies kept + peers holding one = budget, for bundles originated here
-Conservation == Algo = "spray" => \A b \in Cat : (meta[b].has /\ Attr[b].origin = "app") => meta[b].copies + Cardinality(meta[b].sent) = Budget
+Conservation == Inner = "spray" => \A b \in Cat : (meta[b].has /\ Attr[b].origin = "app") => meta[b].copies + Cardinality(meta[b].sent) = Budget
 
 \* C14: bundles of one (source, time) group are stored under distinct sequence numbers
 DistinctIds == \A x, y \in Cat : (x # y /\ st[x].known /\ st[y].known /\ Attr[x].origin = "app" /\ Attr[y].origin = "app"
